@@ -229,7 +229,7 @@ def gen_program(fn, contract, db, inputs_bytes, rm=None):
     return '\n'.join(lines) + '\n'
 
 
-def gen_mem_program(fn, contract, db, inputs_bytes, n_value):
+def gen_mem_program(fn, contract, db, inputs_bytes, n_value, misalign=0):
     """loads / stores: the addressed elements are placed flush against an inaccessible page (once ending at the page
     boundary, once starting on it); a fault, a failed ensures clause or a changed sentinel byte confirms"""
     S = db['structs']
@@ -258,11 +258,15 @@ def gen_mem_program(fn, contract, db, inputs_bytes, n_value):
     pn = fn['params'][0]['name']
     if mem.get('nparam'):
         lines.append('  const std::uint32_t %s = n_in;' % fn['params'][-1]['name'])
-    lines.append('  for (int placement = 0; placement < 2; placement++) {')
+    # placement 2 (unaligned forms only): the elements start at a misaligned address well inside accessible memory -- an
+    # alignment-requiring instruction (movdqa / movaps) raises #GP there
+    esz = sizeof(ect, S)
+    mis = misalign if (misalign and misalign % esz == 0) else esz
+    lines.append('  for (int placement = 0; placement < %d; placement++) {' % (2 if mem.get('aligned') else 3))
     lines.append('    unsigned char* region = (unsigned char*)mmap(0, 3 * pg, PROT_READ | PROT_WRITE, MAP_PRIVATE | MAP_ANONYMOUS, -1, 0);')
     lines.append('    std::memset(region, 0xA5, 3 * pg); mprotect(region, pg, PROT_NONE); mprotect(region + 2 * pg, pg, PROT_NONE);')
     lines.append('    const size_t bytes = (size_t)objn * sizeof(%s);' % cxxe)
-    lines.append('    unsigned char* base = placement == 0 ? region + 2 * pg - bytes : region + pg;')
+    lines.append('    unsigned char* base = placement == 0 ? region + 2 * pg - bytes : (placement == 1 ? region + pg : region + pg + 256 + %d);' % mis)
     if mem.get('aligned'):
         lines.append('    if (((uintptr_t)base) %% %d != 0) continue;' % (W * sizeof(ect, S)))
     lines.append('    std::memcpy(base, init_b, bytes);')
@@ -282,7 +286,7 @@ def gen_mem_program(fn, contract, db, inputs_bytes, n_value):
     lines.append('      const size_t wr = (size_t)cnt * sizeof(%s);' % cxxe)
     lines.append('      for (long i = 0; i < pg; i++) { unsigned char* q = region + pg + i; bool inside = q >= base && q < base + wr;')
     lines.append('        if (!inside && *q != before[pg + i]) { std::printf("BYTE OUTSIDE THE ADDRESSED ELEMENTS CHANGED at offset %ld (placement %d)\\n", (long)(q - base), placement); fails++; break; } }')
-    lines.append('    } else { std::printf("FAULT: the call touched inaccessible memory next to the addressed elements (placement %d: elements %s)\\n", placement, placement == 0 ? "end at a page boundary" : "start on a page boundary"); fails++; }')
+    lines.append('    } else { std::printf("FAULT: the call touched inaccessible memory next to the addressed elements (placement %d: elements %s)\\n", placement, placement == 0 ? "end at a page boundary" : (placement == 1 ? "start on a page boundary" : "at a misaligned address inside accessible memory: an alignment-requiring instruction faulted")); fails++; }')
     lines.append('    munmap(region, 3 * pg);')
     lines.append('  }')
     lines.append('  std::printf(fails ? "REPLAY: property violated on the real code (%d)\\n" : "REPLAY: real code satisfies the contract on this input\\n", fails);')
@@ -449,7 +453,10 @@ def record_and_replay(prop, ob, db, sc, do_replay=True):
                 n_value = int(nv.get('bin'), 2) if nv and nv.get('bin') else 0
                 rec['inputs_hex'] = {k: v.hex() for k, v in ib.items()}
                 rec['n'] = n_value
-                prog = gen_mem_program(fn, ob.contract, db, ib, n_value)
+                mv = inputs.get('mis_in', {}).get('mis_in', {})
+                mis = int(mv.get('bin'), 2) if mv and mv.get('bin') else 0
+                rec['misalign'] = mis
+                prog = gen_mem_program(fn, ob.contract, db, ib, n_value, mis)
             else:
                 prog = gen_program(fn, ob.contract, db, ib, rm)
             rec['program'] = prog
